@@ -382,10 +382,6 @@ theorem recordSym_hasWild (l : Local) (name ptype : Str) :
 
 /-! ## the statement level -/
 
-def OEntry.isDtio : OEntry → Bool
-  | .dtio _ => true
-  | _ => false
-
 /-- the local name an entry of an only-list brings into scope -/
 def OEntry.localName : OEntry → Option Str
   | .name n => some n
@@ -396,47 +392,19 @@ def REntry.localName : REntry → Option Str
   | .sym l _ => some l
   | .op _ _ => none
 
-theorem onlyLoop_error (es : List OEntry) (h : es.any OEntry.isDtio = true) :
-    onlyLoop es = .error .internalError := by
+theorem onlyLoop_names (es : List OEntry) :
+    (onlyLoop es).map (fun e => e.1) = es.filterMap OEntry.localName := by
   induction es with
-  | nil => simp at h
+  | nil => rfl
   | cons e r ih =>
     cases e with
-    | dtio t => rfl
-    | name n =>
-      have : r.any OEntry.isDtio = true := by simpa [OEntry.isDtio] using h
-      simp [onlyLoop, ih this, Except.map]
-    | generic g =>
-      have : r.any OEntry.isDtio = true := by simpa [OEntry.isDtio] using h
-      simp [onlyLoop, ih this]
+    | name n => simp [onlyLoop, List.filterMap_cons, OEntry.localName, ih]
+    | generic g => simp [onlyLoop, List.filterMap_cons, OEntry.localName, ih]
+    | dtio g => simp [onlyLoop, List.filterMap_cons, OEntry.localName, ih]
     | ren re =>
-      have : r.any OEntry.isDtio = true := by simpa [OEntry.isDtio] using h
       cases re with
-      | sym l u => simp [onlyLoop, ih this, Except.map]
-      | op l u => simp [onlyLoop, ih this]
-
-theorem onlyLoop_ok (es : List OEntry) (h : es.any OEntry.isDtio = false) :
-    ∃ l, onlyLoop es = .ok l ∧ l.map (fun e => e.1) = es.filterMap OEntry.localName := by
-  induction es with
-  | nil => exact ⟨[], rfl, rfl⟩
-  | cons e r ih =>
-    cases e with
-    | dtio t => simp [OEntry.isDtio] at h
-    | name n =>
-      have : r.any OEntry.isDtio = false := by simpa [OEntry.isDtio] using h
-      obtain ⟨l, hl, hm⟩ := ih this
-      exact ⟨(n, none) :: l, by simp [onlyLoop, hl, Except.map], by simp [OEntry.localName, hm]⟩
-    | generic g =>
-      have : r.any OEntry.isDtio = false := by simpa [OEntry.isDtio] using h
-      obtain ⟨l, hl, hm⟩ := ih this
-      exact ⟨l, by simp [onlyLoop, hl], by simp [List.filterMap_cons, OEntry.localName, hm]⟩
-    | ren re =>
-      have : r.any OEntry.isDtio = false := by simpa [OEntry.isDtio] using h
-      obtain ⟨l, hl, hm⟩ := ih this
-      cases re with
-      | sym lo u =>
-        exact ⟨(lo, some u) :: l, by simp [onlyLoop, hl, Except.map], by simp [OEntry.localName, hm]⟩
-      | op lo u => exact ⟨l, by simp [onlyLoop, hl], by simp [List.filterMap_cons, OEntry.localName, hm]⟩
+      | sym lo u => simp [onlyLoop, List.filterMap_cons, OEntry.localName, ih]
+      | op lo u => simp [onlyLoop, List.filterMap_cons, OEntry.localName, ih]
 
 theorem renameLoop_names (es : List REntry) :
     (renameLoop es).map (fun e => e.1) = es.filterMap REntry.localName := by
